@@ -414,6 +414,10 @@ func (cf *ContractFile) Generate() (string, error) {
 				return "", fmt.Errorf("%s:%d: %v", fc.File, fc.Line, err)
 			}
 			fc.GenName = fc.Name
+			if strings.TrimSpace(fc.Body) == "uninterpreted" {
+				fmt.Fprintf(&sb, "\n%s { panic(\"uninterpreted\") }\n", fc.Sig)
+				continue
+			}
 			fmt.Fprintf(&sb, "\n%s { return %s }\n", fc.Sig, body)
 			continue
 		}
